@@ -24,9 +24,19 @@ Definition check_c14 (c : rcase) : list string :=
          else []
      | None => []
      end) ++
-    (* a single architecture is unaffected: same answer as with allArchs = nil *)
+    (* a single architecture is unaffected: the answer with allArchs = {arch} is an
+       answer of the PLAIN resolution (dq0 = []), as is the answer with allArchs =
+       nil.  Without install_if that means the two observed lists are equal; with
+       install_if the order of the additions follows Go's map iteration (finding
+       C08-F1) and may differ between two calls, so each list must be reproduced by
+       the plain model under some legal schedule. *)
     (match u_obs_plain r with
      | Some plain =>
-         tag_if (Nat.leb (List.length (c_archs c)) 1 && negb (obs_eqb plain (u_obs r))) "viol:single-arch-affected"
+         if Nat.leb (List.length (c_archs c)) 1 then
+           let m_plain := compare_run R (u_world r) [] plain in
+           let m_multi := compare_run R (u_world r) [] (u_obs r) in
+           List.map (fun t => String.append t "/allArchs-nil-run") m_plain ++
+           tag_if (match m_plain, m_multi with [], _ :: _ => true | _, _ => false end) "viol:single-arch-affected"
+         else []
      | None => []
      end)) (c_runs c)).
